@@ -212,7 +212,7 @@ theorem C09_enthalpy_mono_hr (T ref w1 w2 : ℝ) (hT : 0 < 2501 + 1.86 * (T - re
 /-- The dew point never exceeds the dry bulb (the code returns `min(td, db)`; at `p_w ≤ 0` it returns
     −273.15), for every dry bulb ≥ −273.15 °C and EVERY relative humidity. -/
 theorem C09_dew_le_db (db rh : ℝ) (hdb : -273.15 ≤ db) : dewPointFromDbRh db rh ≤ db := by
-  unfold dewPointFromDbRh
+  unfold dewPointFromDbRh dewClamp
   simp only []
   split_ifs with h1 h2
   · exact hdb
@@ -288,36 +288,37 @@ theorem C09_bisect_width (db hr p : ℝ) (n : ℕ) (s : Bis ℝ) (hm : s.wb = (s
     `[dew point, dry bulb]`. -/
 theorem C09_dpt_le_wb_le_db (db rh p : ℝ) (hdb : -273.15 ≤ db) :
     dewPointFromDbRh db rh ≤ wetBulbFromDbRh db rh p ∧ wetBulbFromDbRh db rh p ≤ db := by
-  unfold wetBulbFromDbRh
-  simp only []
-  exact C09_bisect_bracket db _ p _ _ 100 (C09_dew_le_db db rh hdb)
+  unfold wetBulbFromDbRh bisInit
+  exact C09_bisect_bracket db _ p _ _ bisMaxIndex (C09_dew_le_db db rh hdb)
 
 /-- At saturation (rh = 100) the Newton iteration stops at its first guess: dew point = dry bulb. -/
 theorem C09_dew_at_saturation (db : ℝ) : dewPointFromDbRh db 100 = db := by
   have hs := satVapPres_pos (db + 273.15)
+  have e1 : dewPw db (100 : ℝ) = satVapPres (db + 273.15) := by
+    unfold dewPw
+    norm_num
   unfold dewPointFromDbRh
   simp only []
-  have e1 : satVapPres (db + 273.15) * ((100 : ℝ) / 100.0) = satVapPres (db + 273.15) := by norm_num
   rw [e1]
   rw [if_neg (show ¬ satVapPres (db + 273.15) ≤ (0.0 : ℝ) by
     rw [show (0.0 : ℝ) = 0 by norm_num]; exact not_le.mpr hs)]
-  have hN : dewNewton (log (satVapPres (db + 273.15))) 101 db = db := by
-    show dewNewton (log (satVapPres (db + 273.15))) (100 + 1) db = db
-    unfold dewNewton
+  have hN : dewNewton (log (satVapPres (db + 273.15))) (newtonMaxIndex + 1) db = db := by
+    unfold dewNewton newtonStep newtonStop
     simp only [sub_self, zero_div, sub_zero]
     rw [if_pos]
     rw [real_fabs]
     norm_num
   rw [hN]
+  unfold dewClamp
   simp
 
 /-- At saturation the wet bulb equals the dry bulb too (the bracket is empty, no pass is made). -/
 theorem C09_wb_at_saturation (db p : ℝ) : wetBulbFromDbRh db 100 p = db := by
-  unfold wetBulbFromDbRh
+  unfold wetBulbFromDbRh bisInit
   simp only []
   rw [C09_dew_at_saturation]
   show (bisLoop db _ p (99 + 1) _).wb = db
-  unfold bisLoop
+  unfold bisLoop bisContinue
   rw [if_neg (by norm_num)]
   show (db + db) / 2.0 = db
   norm_num
@@ -363,7 +364,7 @@ theorem C09_db_from_wb_sat (wb P : ℝ) : (dbTempAndHrFromWbRh wb (100.0 : ℝ) 
     `saturated_vapor_pressure` divides by zero, so `rel_humid_from_db_dpt(db, dew_point_from_db_rh(db, 0))`
     raises instead of returning 0 (known finding C09-rh0-dew-point-roundtrip). -/
 theorem C09_rh0_dew_point_counterexample (db : ℝ) : dewPointFromDbRh db 0 + 273.15 = 0 := by
-  unfold dewPointFromDbRh
+  unfold dewPointFromDbRh dewPw
   simp only []
   rw [if_pos (by norm_num)]
   norm_num
